@@ -406,7 +406,8 @@ class Checker(object):
     }
     # evidence/ only ever describes runs against /repo itself; runs against a scratch copy (VERIF_REPO, used by the
     # mutation self-test) leave their record under build/
-    evdir = os.path.join(ROOT, "evidence") if REPO == "/repo" else os.path.join(BUILD, "evidence_scratch")
+    full_run = REPO == "/repo" and not getattr(self, "partial_run", False)
+    evdir = os.path.join(ROOT, "evidence") if full_run else os.path.join(BUILD, "evidence_scratch")
     ev["repo"] = REPO
     os.makedirs(evdir, exist_ok=True)
     with open(os.path.join(evdir, self.pid + ".json"), "w") as f:
@@ -488,6 +489,7 @@ def main(argv=None):
   runlock = open(os.path.join(BUILD, a.pid + ".runlock"), "w")
   fcntl.flock(runlock, fcntl.LOCK_EX)
   chk = Checker(mod, tier, seed)
+  chk.partial_run = bool(a.no_proofs or a.replay)   # development / replay runs never overwrite evidence/
   rng = random.Random(seed)
   only = None
   if a.replay:
